@@ -126,6 +126,8 @@ def _materialise(desc):
     elif v == 2:
         df["temperature"] = 200.0
         df["comment"] = "lab"  # columns the wrapper does not know about
+    elif v == 0 and int(desc["u"][4] * 1000) % 3 == 0 and "pressure" in df:
+        df = df.set_index("pressure", drop=False)  # indexed BY pressure, the column kept: index name = column label
     elif v == 3 and len(df) >= 4:
         # columns the wrapper never reads that are only PARTLY filled (Rs undefined above the bubble
         # point, sparse lab measurements, leftovers of an outer merge): every row is still a table row
